@@ -723,15 +723,18 @@ theorem items_order_lt (names : List Label) (acs : List (Label × Fml)) (items :
 /-! ## the three arms on a parser object -/
 
 /-- THE ASSUMPTIONS about the external world of the binary: the BDD library is lawful for every
-variable set (`Bio.Lawful`) and the alphanumeric sort returns a permutation of the name list. The
+variable set whose variable numbers fit the own store's variable type (`Bio.Lawful`, `nv ≤ VBOT` - the
+theorems only ever use the law at the number of statements of a framework that fits; the bound lets
+the project's own store serve as the library, `CliMP.storeWorldOK`) and the alphanumeric sort returns a permutation of the name list. The
 hybrid arm needs in addition `DumpOK`: the node dump is an ordered dump of the diagram (`DumpLaw`). -/
 structure WorldOK {T : Type} (W : World T) where
-  law : (nv : Nat) → Bio.Lawful (W.lib nv) nv
+  law : (nv : Nat) → nv ≤ VBOT → Bio.Lawful (W.lib nv) nv
   an : ∀ ns, (W.anSort ns).Perm ns
 
 /-- the additional assumption the hybrid arm needs (for variable sets whose variable numbers fit the
 own store's variable type, `nv ≤ VBOT`: no ordered dump exists beyond) -/
-def DumpOKW {T : Type} (W : World T) (ok : WorldOK W) : Prop := ∀ nv, nv ≤ VBOT → DumpLaw (ok.law nv) W.dump
+def DumpOKW {T : Type} (W : World T) (ok : WorldOK W) : Prop :=
+  ∀ nv (h : nv ≤ VBOT), DumpLaw (ok.law nv h) W.dump
 
 theorem spec_len {n : Nat} {tts : List Nat} {D : List BoolFn} (R : SpecSound.Reps n tts D) (hD : D.length = n)
     (sec : Section) : ∀ w ∈ specSection n tts sec, w.length = n := by
@@ -787,15 +790,15 @@ theorem runParsed_faithful {T : Type} (W : World T) (ok : WorldOK W) (fuel : Nat
         (sections .naive f) (s, []) w (Ext.refl _) hh (fun _ hx => by cases hx)).2.2
   | biodivine =>
     have hnm := hnames (by simp)
-    obtain ⟨items, hw, hlt, hb, hl, hv, hden⟩ := bioBuild_facts (ok.law names.length) h hwf hn hnm f.stmrew
-    have hg : Bio.GoodRewrite (ok.law names.length)
+    obtain ⟨items, hw, hlt, hb, hl, hv, hden⟩ := bioBuild_facts (ok.law names.length hn) h hwf hn hnm f.stmrew
+    have hg : Bio.GoodRewrite (ok.law names.length hn)
         (Bio.acOf (W.lib names.length) names.length (items.map (·.1)) (items.map fun pf => fmToBExpr pf.2))
         (if f.stmrew = true then some (Bio.stmRewriting (W.lib names.length) (items.map (·.1))
           (items.map fun pf => fmToBExpr pf.2)) else none) := by
       by_cases hr : f.stmrew = true
       · rw [if_pos hr]
         have hi : omap (itemOf names) acs = some items := by rw [← workList_presents h.p]; exact hw
-        exact Bio.stmRewriting_good (ok.law names.length) _ _
+        exact Bio.stmRewriting_good (ok.law names.length hn) _ _
           (by intro φ hφ
               obtain ⟨pf, hpf, rfl⟩ := List.mem_map.mp hφ
               exact fmToBExpr_closed _ _ (hlt pf hpf))
@@ -811,32 +814,32 @@ theorem runParsed_faithful {T : Type} (W : World T) (ok : WorldOK W) (fuel : Nat
       have := (List.mem_filter.mp hsec).2
       simp only [Bool.and_eq_true] at this
       exact this.2
-    exact secBio_exact (ok.law names.length) R hD hdet _ hv hl hden _ hg sec himpl
+    exact secBio_exact (ok.law names.length hn) R hD hdet _ hv hl hden _ hg sec himpl
   | hybrid =>
     have hnm := hnames (by simp)
-    obtain ⟨items, hw, hlt, hb, hl, hv, hden⟩ := bioBuild_facts (ok.law names.length) h hwf hn hnm f.stmrew
-    have hg : Bio.GoodRewrite (ok.law names.length)
+    obtain ⟨items, hw, hlt, hb, hl, hv, hden⟩ := bioBuild_facts (ok.law names.length hn) h hwf hn hnm f.stmrew
+    have hg : Bio.GoodRewrite (ok.law names.length hn)
         (Bio.acOf (W.lib names.length) names.length (items.map (·.1)) (items.map fun pf => fmToBExpr pf.2))
         (if f.stmrew = true then some (Bio.stmRewriting (W.lib names.length) (items.map (·.1))
           (items.map fun pf => fmToBExpr pf.2)) else none) := by
       by_cases hr : f.stmrew = true
       · rw [if_pos hr]
         have hi : omap (itemOf names) acs = some items := by rw [← workList_presents h.p]; exact hw
-        exact Bio.stmRewriting_good (ok.law names.length) _ _
+        exact Bio.stmRewriting_good (ok.law names.length hn) _ _
           (by intro φ hφ
               obtain ⟨pf, hpf, rfl⟩ := List.mem_map.mp hφ
               exact fmToBExpr_closed _ _ (hlt pf hpf))
           (items_order_lt names acs items hi) (items_order_nodup names acs items hi (hone (by simp) hr))
           (by simp)
       · rw [if_neg hr]; trivial
-    have ⟨w1, v1, l1, g, hlfp, hpre⟩ := hybridStep_spec (ok.law names.length) (hdump rfl names.length hn) _ hv hl
+    have ⟨w1, v1, l1, g, hlfp, hpre⟩ := hybridStep_spec (ok.law names.length hn) (hdump rfl names.length hn) _ hv hl
     rw [hden] at hlfp hpre
     have hs := CliF.Same.pre hD hdet hlfp
     have hc : GoodCands names.length (condsOn names acs) (Bio.stableModelCandidates (W.lib names.length)
         (if f.stmrew = true then some (Bio.stmRewriting (W.lib names.length) (items.map (·.1))
           (items.map fun pf => fmToBExpr pf.2)) else none)
         (Bio.acOf (W.lib names.length) names.length (items.map (·.1)) (items.map fun pf => fmToBExpr pf.2))) := by
-      obtain ⟨R0, vals, hR, hse, he⟩ := Bio.candidates_enum (ok.law names.length) _ _ hv hl hg
+      obtain ⟨R0, vals, hR, hse, he⟩ := Bio.candidates_enum (ok.law names.length hn) _ _ hv hl hg
       rw [hden] at hR
       exact ⟨R0, vals, hR, hse, he⟩
     simp only [haltedParsed, hsz, hb] at hh
@@ -1034,7 +1037,7 @@ theorem bio_arms_reject_special_label {T : Type} (W : World T) (fuel : Nat) (i :
 /-- a world that satisfies the assumptions: the truth-table library (`Bio.ttLawful`), the identity as
 alphanumeric sort (the dump is irrelevant outside the hybrid arm) -/
 def exW : World Nat := ⟨Bio.ttLib, fun _ => [], id⟩
-def exOK : WorldOK exW := ⟨Bio.ttLawful, fun _ => List.Perm.refl _⟩
+def exOK : WorldOK exW := ⟨fun nv _ => Bio.ttLawful nv, fun _ => List.Perm.refl _⟩
 
 /-- `s(b).s(a).ac(b,neg(a)).ac(a,neg(b)).` -/
 def exText : List Char :=
